@@ -600,6 +600,12 @@ def prop(case, r):
     return msgs
 
 
+def no_input(case, r, msgs):
+    """the static write-set analysis over-approximates: when it no longer derives the modelled descriptor from the source
+    (or gives up on a construct), the tie between source and Model/Alias.v is broken, but no failing input is exhibited"""
+    return case.get('op') == 'static-writeset'
+
+
 def coq(case, r):
     if case['op'] == 'static-writeset':
         return 'static_check %s' % r['table']
